@@ -24,6 +24,16 @@ PROP = {
              "compared with the model, with tl_encode/tl_decode of its lite_api.tl declaration inside the model, and "
              "cross-checked on the implementation against the generated codec of the same declaration "
              "(LiteServerAccountIdC, TonNodeBlockIdC, TonNodeBlockIdExtC incl. ToBlockIdExt); "
+             "liteclient's own framing: the private encodeLength/decodeLength/alignBytes (hook) at every length 0..1100 "
+             "(0..600 quick), 4095..4097, 65535..65537, 2^24-2, 2^24-1 and malformed prefixes, compared with the model, "
+             "with the TL prefix and with tl.EncodeLength; Client.Request with raw queries of every length 0..1100 "
+             "(0..300 quick; the generated bindings only ever hand it multiples of 4) and answers of every length over an "
+             "in-process pipe, the ADNL payload compared with the model, with AdnlMessage.MarshalTL and read back by "
+             "tl.Unmarshal, the caller's buffer checked unchanged; WaitMasterchainSeqno / WaitMasterchainBlock (query "
+             "prefix, hand-written ids, answer dispatch); foreign words (byte-swapped Bool ids, true#3fedd339, 0, 1, "
+             "id+-1, swapped, ffffffff, random) substituted at every aligned word of a valid encoding of every type, at "
+             "the word of every Bool field located by flipping the field (oracle: only the two Bool ids parse), into a bool "
+             "on its own, through LiteapiRequestDecoder and through request methods' answers; "
              "every LiteServer*/LiteProxy* method of Client over an in-process pipe "
              "with a scripted server (payload captured; answers: boxed result, boxed liteServer.error, foreign tag, "
              "truncated); LiteapiRequestDecoder on every function's request; unsafe.Sizeof and ToCamelCase. The extracted "
@@ -41,7 +51,12 @@ PROP = {
                     "translated on this run and instantiates the theorems for every declaration and function; the hand-written "
                     "codecs ton.AccountID, ton.BlockID, ton.BlockIDExt, tlb.VmStack (framing) have layout theorems (bytes = "
                     "tl_encode of liteServer.accountId / tonNode.blockId / tonNode.blockIdExt as declared today) and round-trip "
-                    "theorems."),
+                    "theorems; liteclient's private length prefix, alignment and the hand-assembled adnl.message.query / "
+                    "liteServer.query / answer frames have layout theorems (encodeLength = TL prefix with the escape exactly "
+                    "from 254, decodeLength inverts it, Request's payload = tl_encode of adnl.message.query as declared "
+                    "today); the Bool decoder accepts exactly the two constructor ids (C10_bool_decoder_exact; the lenient "
+                    "design is refuted); C10_gen pins the list of functions in tl, liteclient, liteapi, ton that contain the "
+                    "literal 254 or a Bool id to the sites the harness drives."),
     'assumptions': ["values in the domain of the wire-format spec: ints below 2^32/2^64, byte strings below 2^24 bytes, optional "
                     "fields present exactly when the mode bit is set, nesting depth below 64 (lite_api.tl nests 5 deep)",
                     "the Go reader is more liberal than the strict TL reader (non-zero padding, long form for short strings): "
